@@ -137,6 +137,22 @@ CHECKS = {
         "ListBox is exempt from 'arrows only onto selectable children' (documented: a scrolling ListBox focuses unselectable widgets) and may complete a deferred focus change while a key is offered. Crashes of render/keypress are by-catch (C01/C07 territory), counted, history cut. Histories are cut at the first WidgetWarning.",
         "DESIGN.md §3 C08, §8",
     ),
+    "C04": (
+        "exploration",
+        "runtime monitor over frame histories: every byte a really started raw Screen (on a pty) writes is fed to an independent VT100/xterm model; after each draw_screen every cell (glyph after charset translation, colours, style flags), the cursor, insert mode and scroll count are compared with the canvas, and at the end of each history with clear() + full repaint; HTML fragments are parsed back and compared row by row",
+        "Histories of 1-12 frames of directly built canvases (adversarial last-row / last-column content, wide characters, DEC and IBM-charset runs, undefined names, AttrSpec objects) and rendered widget trees at 1x1..40x12, interleaved with clear(), real resize (TIOCSWINSZ + SIGWINCH handler; "
+        "terminal model refilled with garbage cells), one-row mutations and same-object redraws; 5 colour depths, both back_color_erase settings, utf-8 and single-byte encodings, alternate-buffer and partial-screen modes.",
+        "Expected style = own parse of the palette strings (vmon/models/c04_style.py); bold+colour<8 folded with bright under fg_bright_is_bold; on blank cells only bg/underline/standout/strikethrough compared. Double-byte output encodings and TERM-specific branches are not covered.",
+        "DESIGN.md §3 C04, §8",
+    ),
+    "C07": (
+        "exploration",
+        "invariant monitor over histories with spy items: every row of every list item carries a glyph unique to (item, row), so after each render the canvas is matched against the concatenation of the items' own rows and the window, focus, cursor and mouse clauses are asserted directly",
+        "Lists of 0-12 spy flow items (heights 0/1/2/3/5/12/25, selectable or not, cursor protocol), real multi-line Edit and 0-row Pile items; SimpleListWalker, SimpleFocusListWalker and two dict-backed custom walkers (API v1 and v2); boxes (3..20)x(1..10); histories of keys, mouse press/release/wheel, "
+        "set_focus with every coming_from, set_focus_valign, resize, walker insert/delete/replace/clear, focus-flag toggles. The last canvas is kept alive so renders are really served from the cache.",
+        "A 0-row focus item has no row to show: the focus-visible clause is skipped for it (all others apply). wrap_around walkers are not used. All raise clauses are merged by exception site.",
+        "DESIGN.md §3 C07, §8",
+    ),
 }
 
 NA_REASON = "check not built yet in this round (see DESIGN.md §6 build order); no claim is made"
